@@ -27,11 +27,14 @@ structure Gh where
   insd : List Nat := []
   closed : List Nat := []
 
-/-- finished scenarios counted for a feature (`0` without an entry) -/
-def cntOf (b : Brackets) (f : Nat) : Nat :=
-  match b.feats.find? (fun e => e.1 == f) with
+/-- the counter as a function of the association list (features: keys `Nat`; rules: keys `Nat × Nat`) -/
+def cntL {α : Type} [BEq α] (l : List (α × Nat)) (f : α) : Nat :=
+  match l.find? (fun e => e.1 == f) with
   | some e => e.2
   | none => 0
+
+/-- finished scenarios counted for a feature (`0` without an entry) -/
+def cntOf (b : Brackets) (f : Nat) : Nat := cntL b.feats f
 
 /-- final (not retried) notifications of a feature that wait to be drained -/
 def pendFinal (s : SState) (f : Nat) : Nat := s.notifs.countP (fun nt => nt.2.1.feat == f && !nt.2.2.2)
@@ -97,15 +100,10 @@ theorem liveCnt_all (s : SState) (ft : SFeat) (h : ∀ x ∈ scenIds ft, x ∈ Q
 
 /-! ## the bracket counters -/
 
-/-- the counter as a function of the association list -/
-def cntL (l : List (Nat × Nat)) (f : Nat) : Nat :=
-  match l.find? (fun e => e.1 == f) with
-  | some e => e.2
-  | none => 0
-
 theorem cntOf_eq (b : Brackets) (f : Nat) : cntOf b f = cntL b.feats f := rfl
 
-theorem cntL_append_zero (l : List (Nat × Nat)) (g f : Nat) : cntL (l ++ [(g, 0)]) f = cntL l f := by
+theorem cntL_append_zero {α : Type} [BEq α] [LawfulBEq α] (l : List (α × Nat)) (g f : α) :
+    cntL (l ++ [(g, 0)]) f = cntL l f := by
   unfold cntL
   simp only [find?_append]
   cases hfd : l.find? (fun e => e.1 == f) with
@@ -114,28 +112,28 @@ theorem cntL_append_zero (l : List (Nat × Nat)) (g f : Nat) : cntL (l ++ [(g, 0
     simp only [Option.none_or, find?_cons, find?_nil]
     cases hgf : (g == f) <;> simp
 
+/-- the fold of `start_scenarios` (append `(g, 0)` for unseen keys) leaves every counter as it was -/
+theorem cntL_startFold {α : Type} [BEq α] [LawfulBEq α] (f : α) (fs : List α) (acc : List (α × Nat) × List α) :
+    cntL (fs.foldl (fun (acc : List (α × Nat) × List α) g =>
+        if acc.1.any (fun e => e.1 == g) then acc else (acc.1 ++ [(g, 0)], acc.2 ++ [g])) acc).1 f = cntL acc.1 f := by
+  induction fs generalizing acc with
+  | nil => rfl
+  | cons g rest ih =>
+    simp only [foldl_cons]
+    rw [ih]
+    by_cases hany : acc.1.any (fun e => e.1 == g) = true
+    · rw [if_pos hany]
+    · rw [if_neg hany]
+      exact cntL_append_zero _ _ _
+
 theorem cntOf_start (b : Brackets) (batch : List Entry) (f : Nat) : cntOf (startScenarios b batch).1 f = cntOf b f := by
   unfold startScenarios
   simp only
-  have key : ∀ (fs : List Nat) (acc : List (Nat × Nat) × List Nat),
-      cntL (fs.foldl (fun (acc : List (Nat × Nat) × List Nat) g =>
-          if acc.1.any (fun e => e.1 == g) then acc else (acc.1 ++ [(g, 0)], acc.2 ++ [g])) acc).1 f = cntL acc.1 f := by
-    intro fs
-    induction fs with
-    | nil => intro acc; rfl
-    | cons g rest ih =>
-      intro acc
-      simp only [foldl_cons]
-      rw [ih]
-      by_cases hany : acc.1.any (fun e => e.1 == g) = true
-      · rw [if_pos hany]
-      · rw [if_neg hany]
-        exact cntL_append_zero _ _ _
   rw [cntOf_eq, cntOf_eq]
-  exact key _ _
+  exact cntL_startFold f _ _
 
-/-- closing a feature removes its entry; the counters of the other features stay -/
-theorem cntL_filter (l : List (Nat × Nat)) (k f : Nat) :
+/-- closing a group removes its entry; the counters of the others stay -/
+theorem cntL_filter {α : Type} [BEq α] [LawfulBEq α] [DecidableEq α] (l : List (α × Nat)) (k f : α) :
     cntL (l.filter (fun e => !(e.1 == k))) f = if f = k then 0 else cntL l f := by
   induction l with
   | nil => simp [cntL]
@@ -147,7 +145,8 @@ theorem cntL_filter (l : List (Nat × Nat)) (k f : Nat) :
       rw [ih]
       by_cases hfk : f = k
       · simp [hfk]
-      · have : (a.1 == f) = false := by simp [hak]; exact fun h => hfk h.symm
+      · have : (a.1 == f) = false := by
+          rw [hak]; simp; exact fun h => hfk h.symm
         simp [hfk, cntL, find?_cons, this]
     · have : (!(a.1 == k)) = true := by simp [hak]
       rw [filter_cons, this]
@@ -160,7 +159,7 @@ theorem cntL_filter (l : List (Nat × Nat)) (k f : Nat) :
         simp only [cntL, find?_cons, h1] at this ⊢
         exact this
 
-theorem find?_map_key (l : List (Nat × Nat)) (g : Nat × Nat → Nat × Nat) (hg : ∀ x, (g x).1 = x.1) (f : Nat) :
+theorem find?_map_key {α : Type} [BEq α] (l : List (α × Nat)) (g : α × Nat → α × Nat) (hg : ∀ x, (g x).1 = x.1) (f : α) :
     (l.map g).find? (fun x => x.1 == f) = (l.find? (fun x => x.1 == f)).map g := by
   induction l with
   | nil => rfl
@@ -171,10 +170,10 @@ theorem find?_map_key (l : List (Nat × Nat)) (g : Nat × Nat → Nat × Nat) (h
     | false => simpa using ih
 
 /-- counting one more finished scenario of `k`: its (first) entry goes from `c0` to `c0 + 1`, the others stay -/
-theorem cntL_map (l : List (Nat × Nat)) (k c0 f : Nat) (e : Nat × Nat) (hf : l.find? (fun x => x.1 == k) = some e)
-    (hc : e.2 = c0) :
+theorem cntL_map {α : Type} [BEq α] [LawfulBEq α] [DecidableEq α] (l : List (α × Nat)) (k : α) (c0 : Nat) (f : α)
+    (e : α × Nat) (hf : l.find? (fun x => x.1 == k) = some e) (hc : e.2 = c0) :
     cntL (l.map (fun x => if x.1 == k then (x.1, c0 + 1) else x)) f = if f = k then c0 + 1 else cntL l f := by
-  have hg : ∀ x : Nat × Nat, ((fun x : Nat × Nat => if x.1 == k then (x.1, c0 + 1) else x) x).1 = x.1 := by
+  have hg : ∀ x : α × Nat, ((fun x : α × Nat => if x.1 == k then (x.1, c0 + 1) else x) x).1 = x.1 := by
     intro x; simp only; split <;> rfl
   unfold cntL
   rw [find?_map_key _ _ hg]
@@ -876,7 +875,7 @@ theorem notif_finv (c : SCfg) (hwf : WF c) (n : NState) (id : Nat) (failed retri
       subst this
       rw [hb, hbr']
       exact hh
-    have hcntk : cntOf n.base.br k.feat = e.2 := by simp [cntOf, hfd]
+    have hcntk : cntOf n.base.br k.feat = e.2 := by simp [cntOf, cntL, hfd]
     have hpk : pendFinal n.base k.feat = 1 + pendFinal (stepN c n (.notif id failed false)).base k.feat := by
       have := hpend k.feat; simpa using this
     have hpo : ∀ f', f' ≠ k.feat → pendFinal (stepN c n (.notif id failed false)).base f' = pendFinal n.base f' := by
